@@ -1,5 +1,6 @@
 """C05 - export is independent of TCP segmentation, retransmission and reordering."""
 import copy
+import hashlib
 
 from ..rng import Rng
 from .. import gen, world, tlsref as T
@@ -252,7 +253,7 @@ class C05(Prop):
             res = run_export(lane, spec, ex, out, probes=["records"])
             out.count("reach:sweep")
             out.nontrivial = True
-            out.digest = "sweep:%s" % spec["conns"][0]["tcp"]["cuts"]["c"]
+            out.item("sweep:%s" % spec["conns"][0]["tcp"]["cuts"]["c"])
             out.sample = {"mode": "sweep", "cuts": spec["conns"][0]["tcp"]["cuts"]["c"]}
             fc = failure_class(res)
             if fc:
@@ -305,7 +306,9 @@ class C05(Prop):
             self.check_records(out, ps, ex, res, tag, focus=k)
             if truth["app"]["c"] or truth["app"]["s"]:
                 out.nontrivial = True
-            out.add("plans", world.interleave_signature(ex["taplog"]) + str(hash(str(plan["cuts"])) % 100000))
+            out.add("plans", world.interleave_signature(ex["taplog"]) + hashlib.sha256(str(plan).encode()).hexdigest()[:8])
+            if truth["app"]["c"] or truth["app"]["s"]:
+                out.item("plan:%s" % hashlib.sha256(str(plan).encode()).hexdigest()[:12])
         out.sample = {"seed": spec.get("seed"), "conn": describe_conn(conn),
                       "plans": [{"policy": p.get("seg_policy"), "acts": p.get("acts"), "isn_c": p.get("isn_c"),
                                  "ncuts": {d: len(p["cuts"][d]) for d in "cs"}} for p in spec.get("plans", [])[:3]]}
